@@ -243,6 +243,9 @@ func Gen(prop, tier string, seed uint64) *kernel.Plan {
 				e.Par = []int{p[sh], p[(sh+1)%3]}
 				e.Late = []int{p[(sh+2)%3]}
 				e.MF = []MongoFault{{At: g.Range(3, 9), Kind: "slow"}}
+				if g.Chance(1, 3) {
+					e.Dur = 10 // the third request arrives 10.05 s into a holder that takes 10.5-12 s
+				}
 				evs = append(evs, c.localEv(e.Par[0]), c.localEv(e.Late[0]), e)
 				break
 			}
